@@ -520,11 +520,19 @@ def mutate(ctx: Ctx, h: Hier) -> Tuple[Hier, str]:
     """One edit that moves a valid hierarchy towards (or across) the acceptance boundary."""
     rng = ctx.rng
     h = json.loads(json.dumps(h))
-    kind = rng.choice(["order", "order", "drop-super", "drop-assign", "prop-clash", "method-clash", "prop-in-ancestor", "method-in-ancestor", "cycle", "wmt", "no-ctor", "inv-clash"])
+    kind = rng.choice(["order", "order-noprops", "order-noprops", "drop-super", "drop-assign", "prop-clash", "method-clash", "prop-in-ancestor", "method-in-ancestor", "cycle", "wmt", "no-ctor", "inv-clash"])
     by = {c["name"]: c for c in h}
     anc = closure(h)
     with_anc = [c for c in h if anc[c["name"]]]
     if kind == "order":
+        rng.shuffle(h)
+    elif kind == "order-noprops":
+        # any declaration order is accepted when there is nothing to initialise: the stacking passes must
+        # still follow the topological order, not the declaration order
+        for c in h:
+            c["props"], c["ctor"], c["args"] = [], [], []
+            if not c["invs"] and rng.random() < 0.5:
+                c["invs"] = [f"{c['name']} inv0"]
         rng.shuffle(h)
     elif kind == "drop-super":
         cand = [c for c in h if any(k == "S" for k, _ in c["ctor"])]
@@ -630,6 +638,10 @@ def boundary(ctx: Ctx) -> Iterator[Tuple[Hier, str]]:
     h = canonical_ctors([A(props=2)])
     h[0]["ctor"] = [["A", "a_p0"]]
     yield h, "boundary"
+    # reversed declaration of a chain that only carries invariants and a model-type setting
+    yield [mk_class("C", ["B"], props=0, invs=1), mk_class("B", ["A"], props=0, invs=1), mk_class("A", [], props=0, invs=1, wmt=True, abstract=True)], "boundary"
+    # the second parent alone carries with_model_type
+    yield canonical_ctors([A(), mk_class("B", [], wmt=True), mk_class("C", ["A", "B"])]), "boundary"
     # duplicated invariant description along a chain and inside one class
     h = canonical_ctors([A(invs=1), mk_class("B", ["A"], invs=1)])
     h[1]["invs"] = ["A inv0"]
